@@ -17,11 +17,11 @@ type args struct {
 }
 
 func main() {
-	if len(os.Args) < 2 || os.Args[1] != "C19" {
-		fmt.Fprintln(os.Stderr, "usage: verifc C19 [flags]")
+	if len(os.Args) < 2 || (os.Args[1] != "C19" && os.Args[1] != "C19PATH") {
+		fmt.Fprintln(os.Stderr, "usage: verifc C19|C19PATH [flags]")
 		os.Exit(2)
 	}
-	fs := flag.NewFlagSet("C19", flag.ExitOnError)
+	fs := flag.NewFlagSet(os.Args[1], flag.ExitOnError)
 	var a args
 	fs.Int64Var(&a.seed, "seed", 1, "PRNG seed")
 	fs.IntVar(&a.n, "n", 100, "number of generated cases")
@@ -29,7 +29,11 @@ func main() {
 	fs.StringVar(&a.tier, "tier", "quick", "quick|thorough")
 	fs.IntVar(&a.only, "only", -1, "emit only this case index (replay)")
 	_ = fs.Parse(os.Args[2:])
-	if err := runC19(a); err != nil {
+	run := runC19
+	if os.Args[1] == "C19PATH" {
+		run = runC19Path
+	}
+	if err := run(a); err != nil {
 		fmt.Fprintln(os.Stderr, "driver error:", err)
 		os.Exit(3)
 	}
